@@ -344,6 +344,44 @@ def side_and(*sides):
     return side
 
 
+def counter_counts_every_item(f, sy, l):
+    """local `l` is incremented exactly once on every path from the Some arm of the input iterator's next() back to
+    that next() call (i.e. once per consumed item that is followed by another iteration)"""
+    lname = f.locals[l]["name"]
+    heads = []
+    for i, t in f.calls():
+        if callee_of(t).endswith("::next"):
+            nb = t["to"]
+            # follow to the switch on the discriminant
+            for _ in range(3):
+                tt = f.blocks[nb]["term"]
+                if tt["t"] == "switch":
+                    break
+                nb = f.lsuccs(nb)[0] if f.lsuccs(nb) else nb
+            tt = f.blocks[nb]["term"]
+            if tt["t"] != "switch":
+                continue
+            some = [a[1] for a in tt["arms"] if a[0] == "1"]
+            if some and i in f.reach_from(some[0]):
+                heads.append((i, some[0]))
+    if not heads:
+        return False, "no input loop found"
+    inc_blocks = set()
+    for (blk, j, kind, x) in f.defs.get(l, []):
+        if kind != "rv":
+            continue
+        ex = sy.rvalue(x)
+        if (ex[0] == "bin" and ex[1] == "Add" and ex[2] == ("local", l, lname) and const_value(ex[3]) == 1) or \
+                (ex[0] == "agg" and ex[1] == "Tuple" and ex[2][0][0] == "bin" and ex[2][0][1] == "Add" and ex[2][0][2] == ("local", l, lname)):
+            inc_blocks.add(blk)
+    for head, some in heads:
+        # a path Some -> head that avoids every increment block means an item was consumed without being counted
+        reach = f.reach_from(some, avoid=inc_blocks)
+        if head in reach:
+            return False, "an iteration can return to next() without incrementing `%s`" % lname
+    return True, "`%s` is incremented on every iteration path" % lname
+
+
 def side_index_counts_consumed(prog, f, sy, e):
     """parse_block_hash_from_bytes: the re-slice start is a counter that is only set to 0 or incremented by 1 inside the
     Some arm of next() of an iterator over the same slice (or that counter + 1 packed in the result tuple); hence
@@ -418,7 +456,10 @@ def side_index_counts_consumed(prog, f, sy, e):
                     ok = True
         if not ok:
             return False, "index incremented outside the Some arm of next() (bb%d)" % blk
-    return True, "counter `%s` is 0 or +1 per item yielded by the iterator" % lname
+    ok2, w2 = counter_counts_every_item(f, sy, l)
+    if not ok2:
+        return False, w2
+    return True, "counter `%s` is 0 or +1 per item yielded by the iterator, on every iteration path" % lname
 
 
 # ---- discharges specific to the "never panics for any content" entry points ---------------------------------------
